@@ -263,6 +263,7 @@ pub fn run_property(id: &str, tier: Tier, only_sub: Option<String>) -> i32 {
             "excluded_known": excluded_total,
             "known_findings": known_lines,
             "libfuzzer_campaign": fuzz_json,
+            "plain_release_build_run": std::env::var("VERIF_PLAIN_SUMMARY").unwrap_or_else(|_| "not run".to_string()),
             "shards": SHARDS,
             "scale": scale,
         },
@@ -270,7 +271,7 @@ pub fn run_property(id: &str, tier: Tier, only_sub: Option<String>) -> i32 {
         "wall_s": t0.elapsed().as_secs_f64(),
         "violations": violations.len(),
     });
-    if only_sub.is_none() {
+    if only_sub.is_none() && std::env::var("VERIF_NO_EVIDENCE").is_err() {
         let dir = format!("{}/evidence", verif_root());
         let _ = std::fs::create_dir_all(&dir);
         let path = format!("{}/{}.json", dir, id);
